@@ -108,6 +108,17 @@ def _sym_worker(args):
                 sources=srcs, stats=dict(run.stats, path_outcomes=run.path_outcomes))
 
 
+def _family_is_random(p, seed, tier):
+    """does the input family depend on the seed?  (a deterministic enumeration is not repeated under other seeds)"""
+    import itertools
+    try:
+        a = [repr(x) for x in itertools.islice(p.family(seed, tier), 40)]
+        b = [repr(x) for x in itertools.islice(p.family(seed + 1000003, tier), 40)]
+    except Exception:
+        return False
+    return a != b
+
+
 def _conc_worker(args):
     prop, pname, seed, tier, shard, nshards = args
     from pyvc import harness, core
@@ -244,11 +255,16 @@ def main(argv):
     ctx = mp.get_context("fork")
     sym_jobs = [(prop, p.name, tier) for p in proofs if not p.bounded_only]
     conc_jobs = []
+    extra_seeds = int(os.environ.get("PYVC_THOROUGH_SEEDS", "12")) if tier == "thorough" else 1
     for p in proofs:
         if p.family is not None:
             ns = 4 if tier == "thorough" else 2
-            for s in range(ns):
-                conc_jobs.append((prop, p.name, seed, tier, s, ns))
+            seeds = [seed]
+            if extra_seeds > 1 and _family_is_random(p, seed, tier):
+                seeds = [seed + 1000003 * k for k in range(extra_seeds)]     # thorough: the same family under several seeds
+            for sd in seeds:
+                for s in range(ns):
+                    conc_jobs.append((prop, p.name, sd, tier, s, ns))
     sharded = [p for p in proofs if not p.bounded_only and getattr(p, "shards", 1) > 1]
     sym_jobs = [j for j in sym_jobs if harness.PROOFS[j[1]].shards <= 1]
     with ctx.Pool(min(jobs, max(1, len(sym_jobs) + len(conc_jobs) + 8 * len(sharded))), maxtasksperchild=4) as pool:
